@@ -6,11 +6,12 @@ import GormModel.Drv.C15
 import GormModel.Drv.C17
 import GormModel.Drv.Gen
 import GormModel.Drv.C13
+import GormModel.Drv.C11
 open Lean Gorm Gorm.Drv
 
 def handle (args : Array Json) : Option Json := do
   let op ← jStr? (arg args 0)
-  (handleC15 op args) <|> (handleC17 op args) <|> (handleGen op args) <|> (handleC13 op args)
+  (handleC15 op args) <|> (handleC17 op args) <|> (handleGen op args) <|> (handleC13 op args) <|> (handleC11 op args)
 
 partial def loop (hin hout : IO.FS.Stream) : IO Unit := do
   let line ← hin.getLine
